@@ -299,8 +299,8 @@ func (c *Conn) Close() error {
 	return nil
 }
 
-func (c *Conn) LocalAddr() net.Addr               { return addr("lib:" + c.Name) }
-func (c *Conn) RemoteAddr() net.Addr              { return addr("peer:" + c.Name) }
+func (c *Conn) LocalAddr() net.Addr  { return addr("lib:" + c.Name) }
+func (c *Conn) RemoteAddr() net.Addr { return addr("peer:" + c.Name) }
 func (c *Conn) SetDeadline(t time.Time) error {
 	if err := c.SetReadDeadline(t); err != nil {
 		return err
@@ -333,6 +333,8 @@ type Listener struct {
 	cond   *sync.Cond
 	queue  []*Conn
 	closed bool
+	// OnAccept, if set, runs right before Accept hands a connection over (set it before connecting)
+	OnAccept func(c *Conn)
 }
 
 func NewListener() *Listener {
@@ -351,14 +353,19 @@ func (l *Listener) Connect(c *Conn) {
 
 func (l *Listener) Accept() (net.Conn, error) {
 	l.mu.Lock()
-	defer l.mu.Unlock()
 	for {
 		if l.closed {
+			l.mu.Unlock()
 			return nil, net.ErrClosed
 		}
 		if len(l.queue) > 0 {
 			c := l.queue[0]
 			l.queue = l.queue[1:]
+			hook := l.OnAccept
+			l.mu.Unlock()
+			if hook != nil {
+				hook(c) // what happens between the kernel completing the handshake and Accept returning
+			}
 			return c, nil
 		}
 		l.cond.Wait()
